@@ -86,13 +86,12 @@ Inductive kind : Type :=
 | KInvalidEnumFieldValue | KEnumValueOverflow | KDupEnumValue
 | KInvalidAliasedType | KInvalidFieldNumber | KDupFieldNumber
 | KUnsupportedOption | KInvalidOptionValue | KMessageSizeOverflows
-| KAliasInMessage | KConstInMessage | KImportInMessageCrash | KProtoNameOutOfScope
+| KAliasInMessage | KConstInMessage | KImportInMessage | KProtoNameOutOfScope
 | KAliasInEnum | KConstInEnum | KImportInEnum | KOptionInEnum | KEnumInEnum | KMessageInEnum
 | KFieldInEnum
 | KProtoNameUndefined | KExtensibleInTraditional | KCalcExpr
 | KGrammar
 | KIOError              (* OSError from open()/samefile(): not a ParserError, fatal(str(e)) *)
-| KZeroDivCrash         (* ZeroDivisionError traceback: not a ParserError (finding div-zero) *)
 | KFuel.                (* never returned by [check] (FrontProofs.check_fuel_enough) *)
 
 Inductive res (A : Type) : Type :=
@@ -295,7 +294,7 @@ Section Resolve.
     | ESub a b => do x <- eval_cexpr a; do y <- eval_cexpr b; Ok (x - y)
     | EMul a b => do x <- eval_cexpr a; do y <- eval_cexpr b; Ok (x * y)
     | EDiv a b => do x <- eval_cexpr a; do y <- eval_cexpr b;
-                  if y =? 0 then Err KZeroDivCrash file l else Ok (x / y)
+                  if y =? 0 then Err KCalcExpr file l else Ok (x / y)   (* fix ba6c9a1 *)
     end.
 
   Definition eval_cvalx (v : cvalx) : res cval :=
@@ -479,8 +478,8 @@ Section Proc.
         do f' <- push_member cur name child;
         match fk cur with
         | FProto _ => Ok f'
-        | FMsg _ _ => Err KImportInMessageCrash file l
-        | FEnum _ _ => Err KImportInEnum (lfile (def_loc child)) 0
+        | FMsg _ _ => Err KImportInMessage file l       (* fix 5271e56: cites the import statement *)
+        | FEnum _ _ => Err KImportInEnum file l
         end
     | IOption l name v =>
         do cv <- eval_optx file st l v;
@@ -575,12 +574,12 @@ Definition kind_code (k : kind) : Z :=
   | KInvalidEnumFieldValue => 11 | KEnumValueOverflow => 12 | KDupEnumValue => 13
   | KInvalidAliasedType => 14 | KInvalidFieldNumber => 15 | KDupFieldNumber => 16
   | KUnsupportedOption => 17 | KInvalidOptionValue => 18 | KMessageSizeOverflows => 19
-  | KAliasInMessage => 20 | KConstInMessage => 21 | KImportInMessageCrash => 22
+  | KAliasInMessage => 20 | KConstInMessage => 21 | KImportInMessage => 22
   | KProtoNameOutOfScope => 23
   | KAliasInEnum => 24 | KConstInEnum => 25 | KImportInEnum => 26 | KOptionInEnum => 27
   | KEnumInEnum => 28 | KMessageInEnum => 29 | KFieldInEnum => 30
   | KProtoNameUndefined => 31 | KExtensibleInTraditional => 32 | KCalcExpr => 33
-  | KGrammar => 34 | KIOError => 35 | KZeroDivCrash => 36 | KFuel => 37
+  | KGrammar => 34 | KIOError => 35 | KFuel => 37
   end.
 
 (* One row per definition, depth first in declaration order:
@@ -616,14 +615,10 @@ Fixpoint rows_of (pre : string) (n : string) (d : def) : list row :=
   | DEnumField a v => [(q, [8; lline a; v; 0; 0], EmptyString)]
   end.
 
-Definition is_crash (k : kind) : bool :=
-  match k with KImportInMessageCrash | KZeroDivCrash => true | _ => false end.
-
 Definition observe (r : res def) : Z * string * Z * list row :=
   match r with
   | Ok d => (0, EmptyString, 0, rows_of EmptyString EmptyString d)
-  | Err k f l => if is_crash k then (kind_code k, EmptyString, 0, [])   (* a traceback cites nothing *)
-                 else (kind_code k, f, l, [])
+  | Err k f l => (kind_code k, f, l, [])
   end.
 
 Fixpoint zl_eqb (a b : list Z) : bool :=
